@@ -34,7 +34,8 @@ def main():
         for level in job["levels"]:
             raw = zlib.compress(data, level) if cname == "zlib" else gzip.compress(data, compresslevel=level)
             for hi, hist in enumerate(job["hists"]):
-                src = io.BytesIO(raw) if hi % 3 != 1 else Pieces(raw, 3 + hi % 5)
+                # (pieces of a few bytes for small payloads, of a fraction of the 8 KiB block for large ones: a rewind re-reads everything)
+                src = io.BytesIO(raw) if hi % 3 != 1 else Pieces(raw, max(3 + hi % 5, len(raw) // 24))
                 f = cls[cname](src, "rb"); ref = io.BytesIO(data); n += 1
                 try:
                     for k, e in enumerate(hist):
